@@ -503,8 +503,12 @@ class SymExec:
             if isinstance(e.slice, ast.Slice):
                 return ("slice", obj, self.ev(e.slice.lower, st, fr), self.ev(e.slice.upper, st, fr), self.ev(e.slice.step, st, fr))
             idx = self.ev(e.slice, st, fr)
-            if obj[0] in ("list", "tuple") and idx[0] == "const" and isinstance(idx[1], int) and -len(obj[1]) <= idx[1] < len(obj[1]):
+            if obj[0] in ("list", "tuple") and idx[0] == "const" and isinstance(idx[1], int) and not isinstance(idx[1], bool) and -len(obj[1]) <= idx[1] < len(obj[1]):
                 return obj[1][idx[1]]
+            if obj[0] == "dict" and idx[0] == "const":
+                for k, v in obj[1]:
+                    if k == idx:
+                        return v
             return ("index", obj, idx)
         if isinstance(e, ast.BoolOp):
             vals = tuple(self.ev(v, st, fr) for v in e.values)
@@ -557,8 +561,10 @@ class SymExec:
             return ("funcref", mod.functions[e.id])
         if e.id in mod.classes:
             return ("classref", mod.classes[e.id].fq)
-        if e.id in mod.constants and isinstance(mod.constants[e.id], ast.Constant):
-            return const(mod.constants[e.id].value)
+        if e.id in mod.constants:
+            v = self.module_constant(mod, e.id)
+            if v is not None:
+                return v
         fq = self.repo.resolve_name(mod, e)
         if fq is not None:
             if fq in self.repo.classes:
@@ -567,12 +573,29 @@ class SymExec:
             om = self.repo.modules.get(m2)
             if om is not None and attr in om.functions:
                 return ("funcref", om.functions[attr])
-            if om is not None and attr in om.constants and isinstance(om.constants[attr], ast.Constant):
-                return const(om.constants[attr].value)
+            if om is not None and attr in om.constants:
+                v = self.module_constant(om, attr)
+                if v is not None:
+                    return v
             return ("global", fq)
         if e.id in ("True", "False", "None"):
             return const({"True": True, "False": False, "None": None}[e.id])
         return ("builtin", e.id)
+
+    def module_constant(self, mod, name: str) -> Term | None:
+        """Value of a module-level constant: literals, and tables (dict / tuple / list) of literals, functions and methods."""
+        key = (mod.name, name)
+        cache = self.__dict__.setdefault("_mod_consts", {})
+        if key in cache:
+            return cache[key]
+        cache[key] = None  # recursion guard
+        e = mod.constants[name]
+        if isinstance(e, ast.Constant):
+            cache[key] = const(e.value)
+        elif isinstance(e, (ast.Dict, ast.Tuple, ast.List)) and not any(isinstance(n, (ast.Call, ast.Lambda, ast.ListComp, ast.DictComp, ast.SetComp, ast.GeneratorExp)) for n in ast.walk(e)):
+            probe = FuncInfo(name="<module>", qualname="<module>", node=ast.Lambda(args=ast.arguments(posonlyargs=[], args=[], kwonlyargs=[], kw_defaults=[], defaults=[]), body=ast.Constant(value=None)), module=mod)
+            cache[key] = self.ev(e, State({}, {}, ()), Frame(probe))
+        return cache[key]
 
     def _static_type(self, fr: Frame, e: ast.expr):
         try:
@@ -862,10 +885,8 @@ class SymExec:
         for p, d in zip(a.kwonlyargs, a.kw_defaults):
             if d is not None and p.arg not in env:
                 env[p.arg] = self.ev(d, dst, dfr)
-        if any(p not in env for p in allp if p not in ()):
-            missing = [p for p in allp if p not in env]
-            if missing:
-                raise _Opaque
+        if any(p not in env for p in allp):
+            raise _Opaque
         return env
 
     def interpret(self, callee: FuncInfo, env: dict, st: State) -> Term:
